@@ -57,7 +57,7 @@ def build_lock():
 # ---------------------------------------------------------------------------------------------
 def coq_files() -> t.List[str]:
     out = []
-    for sub in ("Prelude", "gen", "Spec", "Model", "Proofs", "Properties", "Refuted"):
+    for sub in ("Prelude", "gen", "Spec", "Model", "Flow", "Proofs", "Properties", "Refuted"):
         out += sorted(glob.glob(os.path.join(COQ, sub, "*.v")))
     # files whose name starts with '_' or '.' are scratch files of whoever is working there
     return [os.path.relpath(p, COQ) for p in out if not os.path.basename(p).startswith(("_", "."))]
